@@ -44,3 +44,7 @@ def residue_pair_joined_by_nonbond_only(f):
     """every requested residue edge that is not realised by a bond/constraint/virtual site is realised by some
     other interaction (angle, dihedral) of a link - and nothing else is wrong"""
     return f.get("nonbond_only_pairs", 0) >= 1 and f.get("unexplained_pairs", 0) == 0
+
+
+def conditional_include_after_inline_moleculetype(f):
+    return bool(f.get("cond_include"))
